@@ -153,3 +153,27 @@ PROPS["C23"] = dict(
     level_text="Sampled inputs over every length class and password class with an exact reference value per call.",
     level_note="Trusted base: pyref/crypto.py, Python hashlib, OpenSSL 3 libcrypto.",
 )
+
+PROPS["C02"] = dict(
+    title="Documents written by the library read back with the same content",
+    level="exploration",
+    technique="authoring programs (seeded public-API call sequences, replayable as JSON) executed under all 32 writer configurations; three-way comparison of the program's model (page sizes, rotation, the content bytes each page generated in memory via the verif_generate_content hook, supplied image samples, annotation counts) with what an independent strict reader (pyref) and the library's own reader (strict and default presets) find in the written bytes; content is compared as token sequences, images as decoded samples",
+    stages=[rust(id="DOC", args={"flavor": "c02"}), rust(id="OBS", args={"dir": "{out}/cases"}), py("pyref.checks.docchecks", args={"prop": "C02"})],
+    rule="program = 1-6 pages (5 page sizes incl. fractional, rotation 0/90/180/270), 3-30 drawing/text steps per page (paths, fills, strokes, RGB/gray/CMYK colours, line width, q/Q, cm, text in 8 standard fonts with delimiters and Latin-1), raw RGB / gray / RGBA images, annotations, outlines, metadata; every program under xref table|stream x object streams x compression x version 1.4/1.5/1.7/2.0. Non-trivial: >=2 pages or >=1 image, and >=10 operators; distinct by (program, configuration)",
+    assumptions=["the model's content is the page's own in-memory serialisation (hook H5); API-call -> operator fidelity is C21's subject", "annotation, outline and metadata *text* is judged by C10/C28, here only counts"],
+    floors={"quick": {"evaluations": 300, "distinct": 150, "counters": {"obs": 500}}, "thorough": {"evaluations": 15000, "distinct": 8000}},
+    level_text="Sampled programs, exhaustive over the 32-point configuration lattice for each program; exact oracles (token and sample equality).",
+    level_note="Trusted base: pyref/pdf.py (strict reader, anchored to repository fixtures), hook H5.",
+)
+
+PROPS["C03"] = dict(
+    title="Written files are structurally valid PDF",
+    level="exploration",
+    technique="independent structural validator (pyref.validate: header, every in-use xref entry exactly at 'N G obj', 20-byte entries, startxref target, /Size, stream /Length, dangling references, token syntax, object-stream and xref-stream consistency, /Encrypt + /ID for encrypted files) over files written under every configuration, plus a monitor on the library's own strict/default open of the same bytes that reports any recovery / reconstruction hook event",
+    stages=[rust(id="DOC", args={"flavor": "c03"}), rust(id="OBS", args={"dir": "{out}/cases"}), py("pyref.checks.docchecks", args={"prop": "C03"})],
+    rule="C02's programs with hostile text (delimiters, controls, cp1252, BMP, astral) in content, metadata, annotations and outlines x 32 configurations, a quarter of them additionally encrypted (4 strengths). Every written file counts as non-trivial; distinct by file",
+    assumptions=["only rules the specification states with 'shall'; whitespace and key order are free", "a benign hybrid scan (xref.hybrid_fill) is not counted as recovery"],
+    floors={"quick": {"evaluations": 300, "distinct": 300, "counters": {"opened_without_recovery": 400}}, "thorough": {"evaluations": 15000, "distinct": 15000}},
+    level_text="Sampled programs x all configurations, each file judged by an independent validator and by the hook-instrumented library reader.",
+    level_note="Trusted base: pyref/validate.py (self-test with one negative file per rule), pyref/pdf.py, hooks H3.",
+)
